@@ -35,6 +35,8 @@ func SourceSummary(sourceFile *sourcedef_j5pb.SourceFile, ec ErrCollector) (*Fil
 		Package:        sourceFile.Package.Name,
 		Exports:        make(map[string]*TypeRef),
 		ProducesFiles:  allFilenames,
+
+		DependencyPositions: make(map[string]*errpos.Position),
 	}
 
 	importMap, err := j5Imports(sourceFile)
@@ -55,6 +57,17 @@ func SourceSummary(sourceFile *sourcedef_j5pb.SourceFile, ec ErrCollector) (*Fil
 		}
 
 		fs.TypeDependencies = append(fs.TypeDependencies, expanded.ref)
+
+		if expanded.imported == nil {
+			continue
+		}
+		depPackage := expanded.ref.Package
+		if _, ok := fs.DependencyPositions[depPackage]; ok {
+			continue
+		}
+		if pos := expanded.imported.position(); pos != nil {
+			fs.DependencyPositions[depPackage] = pos
+		}
 	}
 
 	for _, export := range cc.exports {
@@ -69,20 +82,7 @@ func SourceSummary(sourceFile *sourcedef_j5pb.SourceFile, ec ErrCollector) (*Fil
 			continue
 		}
 		err := fmt.Errorf("import %q not used", ref.fullPath)
-		var pos *errpos.Position
-		if ref.source != nil {
-			pos = &errpos.Position{
-				Start: errpos.Point{
-					Line:   int(ref.source.StartLine),
-					Column: int(ref.source.StartColumn),
-				},
-				End: errpos.Point{
-					Line:   int(ref.source.EndLine),
-					Column: int(ref.source.EndColumn),
-				},
-			}
-		}
-		ec.WarnPos(pos, err)
+		ec.WarnPos(ref.position(), err)
 	}
 
 	return fs, nil
